@@ -1,5 +1,5 @@
 import PPLV.WR.TransOct2ProofsRefine
-import PPLV.WR.TransOct2ProofsBounded
+import PPLV.WR.TransOct2ProofsBndMain
 import Mathlib.Tactic.IntervalCases
 import Mathlib.Tactic.NormNum
 /-!
@@ -25,9 +25,17 @@ of valuations satisfying every stored entry; `upd x var t` is `x[var := t]`.
   conditions as for `BD_Shape` in stage 3 (coefficients and `|den|` representable) and `HalfFiniteOn`; the second
   inherits the exclusion of KF-C03-75.
 * `oct_bounded_affine_image_sound_special_partial` — `lb_expr` constant or `±den*w + b` with `w ≠ var`, any
-  `ub_expr`.  The extra-dimension branch (`lb_expr == ±den*var + b`) and the general case of `lb_expr` are modelled
-  (`octBoundedExtraDim`, `octBoundedAffineImageCore`) but NOT proved: see `PPLV/WR/TransOct2ProofsBounded.lean`
-  for the missing invariant.
+  `ub_expr`: stage-3 side conditions only.
+* `oct_bounded_affine_image_sound_partial` — ALL branches (also `lb_expr == ±den*var + b` through an additional
+  dimension, and the general `lb_expr`), with two hypotheses beyond `CoeffExact` / `HalfFiniteOn` of the closed
+  matrix: (1) `hmono`: the rounding is monotone — used by the general `lb_expr` only: its lower-bound kernel
+  (`deduce_minus_v_pm_u_bounds`) reads unary cells that the inner `generalized_affine_image(var, ≤, ub_expr, den)`
+  (incremental closure) may have LOWERED while the sum was accumulated over the old cells; every real `T` rounds
+  monotonically, the excluded point is a non-monotone rounding, which no instantiation has: not a candidate defect;
+  (2) `hmid`: `HalfFiniteOn` of the intermediate matrix `octBoundedExtraMid` (after `affine_image(new_var, lb_expr,
+  den)`) — used by the extra-dimension branch only, where `ub_expr` is approximated over the unary cells left by
+  that inner call; halving a finite value of `T` never overflows, but an abstract `up` does not say so.
+  `…_mpq`, `…_mpz`: no side condition.
 -/
 set_option linter.unusedVariables false
 set_option linter.unnecessarySeqFocus false
@@ -241,6 +249,42 @@ theorem oct_bounded_affine_image_sound_special_partial (R : Rnd) (hR : R.Sound) 
       ∃ m', octBoundedAffineImage R closed vid el bl eu bu den m = some m' ∧ upd x vid t ∈ γO n m' :=
   octBoundedAffineImage_special_sound hR m closed hv hden hcu hh hsp
 
+/-- all branches of `bounded_affine_image`: every `x'` that agrees with a point `x` of the octagon off `var` and
+has `lb(x)/den ≤ x'_var ≤ ub(x)/den` is in the result.  Beyond the stage-3 side conditions: `hmono` (monotone
+rounding: general `lb_expr`), `hmid` (halving the unary cells of the intermediate matrix does not overflow:
+extra-dimension branch), and the expressions have space dimension `≤ n` (checked by the code). -/
+theorem oct_bounded_affine_image_sound_partial (R : Rnd) (hR : R.Sound)
+    (hmono : ∀ a b : ℚ, a ≤ b → R.up a ≤ R.up b) {n : ℕ} (m : OctM n)
+    (closed : Bool) (vid : ℕ) (hv : vid < n) (el : ℕ → ℤ) (bl : ℤ) (eu : ℕ → ℤ) (bu : ℤ) (den : ℤ)
+    (hden : den ≠ 0) (hel : ∀ i, n ≤ i → el i = 0) (heu : ∀ i, n ≤ i → eu i = 0)
+    (hcl : CoeffExact R el) (hcu : CoeffExact R eu)
+    (hh : ∀ m', octCloseFirst R.up closed m = some m' → HalfFiniteOn R.up m')
+    (hmid : ∀ m0 m1, octCloseFirst R.up closed m = some m0 → octBoundedExtraMid R n el bl den m0 = some m1 →
+      HalfFiniteOn R.up m1) :
+    ∀ x ∈ OctM.γ m, ∀ t : ℚ, (linEval el x n + bl) / den ≤ t → t ≤ (linEval eu x n + bu) / den →
+      ∃ m', octBoundedAffineImage R closed vid el bl eu bu den m = some m' ∧ upd x vid t ∈ γO n m' :=
+  octBoundedAffineImage_sound hR hmono m closed hv hden hel heu hcl hcu hh hmid
+
+/-- `Octagonal_Shape<mpq_class>` -/
+theorem oct_bounded_affine_image_sound_mpq {n : ℕ} (m : OctM n) (closed : Bool) (vid : ℕ) (hv : vid < n)
+    (el : ℕ → ℤ) (bl : ℤ) (eu : ℕ → ℤ) (bu : ℤ) (den : ℤ) (hden : den ≠ 0)
+    (hel : ∀ i, n ≤ i → el i = 0) (heu : ∀ i, n ≤ i → eu i = 0) :
+    ∀ x ∈ OctM.γ m, ∀ t : ℚ, (linEval el x n + bl) / den ≤ t → t ≤ (linEval eu x n + bu) / den →
+      ∃ m', octBoundedAffineImage Rnd.exact closed vid el bl eu bu den m = some m' ∧ upd x vid t ∈ γO n m' :=
+  oct_bounded_affine_image_sound_partial _ Rnd.exact_sound octUpId_mono m closed vid hv el bl eu bu den hden hel heu
+    (Rnd.exact_coeff el) (Rnd.exact_coeff eu) (fun m' _ => halfFiniteOn_exact m')
+    (fun _ m1 _ _ => halfFiniteOn_exact m1)
+
+/-- `Octagonal_Shape<mpz_class>` -/
+theorem oct_bounded_affine_image_sound_mpz {n : ℕ} (m : OctM n) (closed : Bool) (vid : ℕ) (hv : vid < n)
+    (el : ℕ → ℤ) (bl : ℤ) (eu : ℕ → ℤ) (bu : ℤ) (den : ℤ) (hden : den ≠ 0)
+    (hel : ∀ i, n ≤ i → el i = 0) (heu : ∀ i, n ≤ i → eu i = 0) :
+    ∀ x ∈ OctM.γ m, ∀ t : ℚ, (linEval el x n + bl) / den ≤ t → t ≤ (linEval eu x n + bu) / den →
+      ∃ m', octBoundedAffineImage Rnd.ceil closed vid el bl eu bu den m = some m' ∧ upd x vid t ∈ γO n m' :=
+  oct_bounded_affine_image_sound_partial _ Rnd.ceil_sound octUpCeil_mono m closed vid hv el bl eu bu den hden hel heu
+    (Rnd.ceil_coeff el) (Rnd.ceil_coeff eu) (fun m' _ => halfFiniteOn_ceil m')
+    (fun _ m1 _ _ => halfFiniteOn_ceil m1)
+
 /-! ## non-vacuity: `0 ≤ x₀ ≤ 4`, `x₀ - x₁ ≤ 0`, `x₀ + x₁ ≤ 3` (rows `+x₀, -x₀, +x₁, -x₁`), the point `(1, 3/2)` -/
 
 def exO2 : OctM 2 := OctM.ofLists 2
@@ -320,5 +364,21 @@ example : ∃ m', octBoundedAffineImage Rnd.exact false 0 eW2 (-2) eO2 1 1 exO2 
   oct_bounded_affine_image_sound_special_partial _ Rnd.exact_sound exO2 false 0 (by norm_num) eW2 (-2) eO2 1 1
     (by norm_num) (Rnd.exact_coeff eO2) (fun m' _ => halfFiniteOn_exact m') (Or.inr (by decide +kernel))
     ptO2 ptO2_mem 0 (by simp [linEval, eW2, ptO2]; norm_num) (by simp [linEval, eO2, ptO2]; norm_num)
+
+-- the branch through an additional dimension: `x₀ - 1 ≤ x₀' ≤ 2·x₀ + x₁ + 1`, over the integers
+example : ∃ m', octBoundedAffineImage Rnd.ceil false 0 (fun i => if i = 0 then 1 else 0) (-1) eO2 1 1 exO2 = some m' ∧
+    upd ptO2 0 2 ∈ γO 2 m' :=
+  oct_bounded_affine_image_sound_mpz exO2 false 0 (by norm_num) (fun i => if i = 0 then 1 else 0) (-1) eO2 1 1
+    (by norm_num) (by intro i hi; simp; omega) (by intro i hi; simp [eO2]; omega)
+    ptO2 ptO2_mem 2 (by simp [linEval, ptO2]) (by simp [linEval, eO2, ptO2]; norm_num)
+-- the lower bound survives: `x₀' - x₀ ≥ -1` is lost with `x₀`, but `x₀' ≥ -1` (doubled cell `2`) is kept
+example : ((octBoundedAffineImage Rnd.exact false 0 (fun i => if i = 0 then 1 else 0) (-1) eO2 1 1 exO2).map
+    fun m => m 0 1) = some (fin 2) := by decide +kernel
+
+-- general `lb_expr`: `(2·x₀ + x₁ - 4)/2 ≤ x₀' ≤ (2·x₀ + x₁)/2`
+example : ∃ m', octBoundedAffineImage Rnd.exact false 0 eO2 (-4) eO2 0 2 exO2 = some m' ∧ upd ptO2 0 0 ∈ γO 2 m' :=
+  oct_bounded_affine_image_sound_mpq exO2 false 0 (by norm_num) eO2 (-4) eO2 0 2 (by norm_num)
+    (by intro i hi; simp [eO2]; omega) (by intro i hi; simp [eO2]; omega)
+    ptO2 ptO2_mem 0 (by simp [linEval, eO2, ptO2]; norm_num) (by simp [linEval, eO2, ptO2]; norm_num)
 
 end C03
